@@ -26,7 +26,8 @@ def step (st : Unit) : List String → Unit × List String
         validatorStart := parseInt vs
         endTime := optInt endT
         finishedBefore := (fin = "1")
-        lastShare := optInt last
+        -- the code keeps the last submit time in whole unix seconds (Mean.lastSubmitTime); the bubble's clock starts on a whole second
+        lastShare := (optInt last).map fun x => x / 1000000000 * 1000000000
         fulfilStart := parseInt fs
         shareTimeout := parseInt sto
         target := t
